@@ -1089,9 +1089,10 @@ def lstsq_rules(run, db):
 
         def subscript(self, v, idx, node):
             if isinstance(v, Sh) and isinstance(idx, Mask):
-                if idx.dims != v.dims[-len(idx.dims):]:
+                # a[mask]: a boolean mask indexes the LEADING axes of the array
+                if tuple(idx.dims) != tuple(v.dims[:len(idx.dims)]):
                     self.interp.emit('mask-mismatch', array=v.dims, mask=idx.dims, node=node)
-                r = self._new(tuple(v.dims[:-len(idx.dims)]) + ('V',), cast=id(v) in self.cast)
+                r = self._new(('V',) + tuple(v.dims[len(idx.dims):]), cast=id(v) in self.cast)
                 self.tag[id(r)] = idx
                 return r
             if isinstance(v, Sh) and isinstance(idx, Tup) and any(isinstance(x, Mask) for x in idx.items):
